@@ -87,3 +87,20 @@ add("C03",
     shards={"quick": 16, "thorough": 16},
     require_counts=["linearisations:backup-with-parent", "linearisations:prune-repack-slow", "failed_call_runs", "crash_states"],
     )
+
+add("C10",
+    engine="SCHED",
+    level="model_checking",
+    technique="stateless exploration of all interleavings of two real commands at backend-call granularity with bounded command switches (gate scheduler)",
+    design_ref="DESIGN.md §4.2, §5 C10",
+    level_text="Two real commands (backup vs prune mark-only / repack fast / repack slow, backup vs backup; either one first) run on their own handles behind one gate; "
+               "every schedule with <=2 (quick) / <=3 (thorough) command switches placed at any backend call - including the index reads and listings - is executed. "
+               "After each, one hour passes, a further prune runs on a fresh handle and every snapshot of a successful command must read back to its source through the independent decoder "
+               "(thorough: check --read-data clean). The run must contain executions in which the late backup depends on packs marked meanwhile and the follow-up prune recovers them, "
+               "and the built-in out-of-proviso control (second prune after keep-delete while the backup is still running) must lose data.",
+    level_note="Granularity is the backend call; both commands share the process (rayon pool of 4 threads). Replayed prefixes that diverge because of races inside the pipelines are counted and make the run non-exhaustive, "
+               "they are still checked. Proviso of the statement (keep-delete exceeds the backup's duration) is kept by the hooked clock.",
+    shards={"quick": 16, "thorough": 16},
+    rayon_threads=4,
+    require_counts=["needs_recover_before_followup_prune", "followup_prune_recovered_packs", "control_data_loss_executions", "executions:backup||backup"],
+    )
